@@ -195,6 +195,13 @@ type indexInArrayMatcher struct {
 
 func (m *indexInArrayMatcher) Match(value client.NormalValue) (bool, error) {
 	for _, inVal := range m.inValues {
+		if inTime, ok := inVal.Unwrap().(time.Time); ok {
+			// the same instant may be written with different offsets
+			if valTime, ok := value.Unwrap().(time.Time); ok && inTime.Equal(valTime) {
+				return m.isIn, nil
+			}
+			continue
+		}
 		if inVal.Unwrap() == value.Unwrap() {
 			return m.isIn, nil
 		}
